@@ -139,6 +139,29 @@ def advance_rules(rep, ctx, mod, prefix=""):
                     rep.check(rid, ok, "the computed answer is used only with a pending input entry", r.where(), None, function=et.cname, obj="computed")
         rep.check(rid, nzero >= 1, "'not yet' answers found", et.file, "%d" % nzero, function=et.cname, obj="sites")
 
+        # R7d: which entries keep the top directory open.  An entry without a path lies in the archive root, outside every directory; an entry
+        # with a path keeps it open exactly when the prefix comparison says "equal".
+        rid = rep.rule(prefix + "R7d", "end_of_top_dir: an entry without a path ends the top directory, and the computed answer is `strncmp(...) != 0`", 2)
+        npath = ("load", ("field", "LHAFileHeader", "path", inp))
+        nd = 0
+        for r in rets(et):
+            for s_, fs in F.sources(r.ops[0]):
+                if is_const(s_) and const_val(s_) == 0:
+                    bad = M.find_fact(("eq", npath, 0), fs)[0] is not None
+                    nd += 1
+                    rep.check(rid, not bad, "'not yet' is not answered for a pending entry that has no path", r.where(),
+                              None if not bad else "an entry stored in the archive root (path == NULL) is treated as lying inside the directory on top of the stack: "
+                              "the directory is re-presented late, after members that do not belong to it", function=et.cname, obj="rootless")
+                elif not is_const(s_):
+                    d = et.defn(M.strip(s_))
+                    okc = d is not None and not d.is_param and d.op == "icmp" and d.pred == "ne" and is_const(d.ops[1]) and const_val(d.ops[1]) == 0 and \
+                        M.match(("call", "strncmp", [ANY, ANY, ANY]), d.ops[0], {}) is not None
+                    oknn = M.find_fact(("ne", npath, 0), fs)[0] is not None
+                    nd += 1
+                    rep.check(rid, okc and oknn, "the computed answer is `strncmp(next->path, top->path, n) != 0`, used only when next->path != NULL", r.where(),
+                              None if okc and oknn else "computed as %s" % describe(et, s_), function=et.cname, obj="computed-form")
+        rep.check(rid, nd >= 2, "answers of end_of_top_dir examined", et.file, "%d" % nd, function=et.cname, obj="sites-d")
+
 
 def run(tier, seed):
     rep = Report("C15", tier, "other",
